@@ -165,6 +165,7 @@ func runC06(c *core.Ctx) {
 		{Name: "req", N: len(reqKinds)}, {Name: "session", N: len(sessions)}, {Name: "shape", N: len(shapes)}, {Name: "idp", N: len(idpConfs)},
 		{Name: "method", N: len(c06Methods)}, {Name: "intermediates", N: 2}, {Name: "clock", N: len(clocks)}, {Name: "tol", N: len(tols)},
 		{Name: "reqextra", N: len(c06ReqExtras)},
+		{Name: "issueinstant-form", N: 3},
 	}
 	k := 4
 	if c.Thorough() {
@@ -177,6 +178,9 @@ func runC06(c *core.Ctx) {
 			shortAlg(c06Methods[pt[4]]), pt[5], clocks[pt[6]], tols[pt[7]].name)
 		if pt[8] != 0 {
 			key += "/reqextra=" + c06ReqExtras[pt[8]].name
+		}
+		if pt[9] != 0 {
+			key += "/request-IssueInstant-written-with-offset=" + []string{"Z", "-05:00", "+02:00"}[pt[9]]
 		}
 		c.Case(key, func(t *core.T) {
 			if dev > 0 {
@@ -264,7 +268,14 @@ func runC06(c *core.Ctx) {
 				}
 				want, _ = c05Select(eps, ru, ri)
 			}
-			plainDoc := authnRequestXML(samlgen.S(samlgen.SPEntity), samlgen.S(samlgen.IDPSSO), samlgen.S("2.0"), samlgen.S(samlgen.TS(issued)), url, index, reqID)
+			issuedText := samlgen.TS(issued)
+			switch pt[9] { // the same instant, written by the SP in its local zone
+			case 1:
+				issuedText = issued.In(time.FixedZone("", -5*3600)).Format("2006-01-02T15:04:05.000-07:00")
+			case 2:
+				issuedText = issued.In(time.FixedZone("", 2*3600)).Format("2006-01-02T15:04:05.000-07:00")
+			}
+			plainDoc := authnRequestXML(samlgen.S(samlgen.SPEntity), samlgen.S(samlgen.IDPSSO), samlgen.S("2.0"), samlgen.S(issuedText), url, index, reqID)
 			doc := plainDoc
 			if x := c06ReqExtras[pt[8]]; x.xml != "" && !idpInit {
 				// optional request content naming identities / formats: the emitted identity must not depend on it
